@@ -23,7 +23,8 @@ META = {
     "decided": ["C02.1 container codecs symmetric (AGREE to_basic/to_python for ListField, DictField)",
                 "C02.3 sub-configurations linked to the parent before load/store",
                 "C02.4 no instance methods / unrequested virtual fields / raw values in the tree",
-                "C02.5 load_tree decodes with to_python before the store; dumps/loads/save/load glue"],
+                "C02.5 load_tree decodes with to_python before the store; dumps/loads/save/load glue",
+                "C02.6 format wiring (shared with C04.1-4,6)"],
     "not_decided": ["equality of the re-loaded values for all states in all five formats (json/yaml/bson/minidom/pickle inverse laws)",
                     "scalar codec inverse pairs are decided under C05"],
 }
@@ -145,6 +146,14 @@ def check(ctx):
 
     # ---------------------------------------------------------------- C02.3
     check_links(ctx, "link")
+
+    # ---------------------------------------------------------------- C02.6 "in every format": the format wiring decided
+    # under C04 (tag tables, payload written and read verbatim, root key / root tag symmetry, wrapper pairs) is a
+    # necessary condition of the round trip as well
+    from . import c04
+    sub = type(ctx)(ctx.pid, ctx.an, ctx.tier)
+    c04.check(sub)
+    ctx.obligations.extend(o for o in sub.obligations if o.rule.split(".", 1)[1].split(".")[0] in ("xml", "yaml", "wrapper", "dispatch"))
 
     # ---------------------------------------------------------------- C02.4 to_tree contents
     g = an.cfg(to_tree)
